@@ -90,6 +90,11 @@ def array_cfg(rng, tier, prop, families):
            "dtypes": rng.choice([["f8"], ["f8", "i8"], ["f8", "f8", "i8", "i4", "b1", "O"]]),
            "dim_names": V.DIM_NAMES[:rng.randint(2, 6)],
            "n_steps": rng.randint(25, 60) if long_ else rng.randint(5, 30)}
+    if rng.random() < 0.06:
+        # "big" runs: behaviour must not depend on axes being short
+        cfg["max_len"], cfg["max_rank"], cfg["big"] = rng.randint(6, 24), min(cfg["max_rank"], 2), True
+    if rng.random() < 0.15:
+        cfg["dtypes"] = cfg["dtypes"] + ["f4"]
     cfg["min_len"] = min(cfg["min_len"], cfg["max_len"])
     cfg["scenario_rate"] = {"C05": rng.choice([0.0, 0.1, 0.25]), "C15": rng.choice([0.0, 0.0, 0.1]), "C16": 0.0}[prop]
     return cfg
